@@ -14,6 +14,8 @@
     * vault share query      : `vault_share_eq_withdraw` — HOOK, see the end of the file
 -/
 import WW.Proofs.Quotes
+import WW.Proofs.Trio
+import WW.Proofs.Vault
 namespace WW.C14
 open WW WW.Quotes
 
@@ -206,5 +208,33 @@ example :
   Add the imports at the top of this file and the theorems below this comment, inside
   `namespace WW.C14`.
 -/
+
+/-- **Three-asset stableswap**: whenever a swap executes, the `Simulation` query on the pre-state (same
+    block, same offer) returns a computation `c`, and the swap transfers and records exactly `c`: the
+    receiver gets `c.ret`, the pending and all-time protocol-fee ledgers grow by `c.protFee`, the burn
+    ledger and the asset's supply move by `c.burnFee`; native and cw20 offers alike
+    (model WW/Model/Trio.lean, tied to the real 3pool by engine `trio`). -/
+theorem trio_sim_eq_exec {s s' : WW.Trio.St} {h u offer ask amt : Nat} {bp ms rc : Option Nat}
+    (hs : WW.Trio.swap s h u offer ask amt bp ms rc = .ok s') :
+    ∃ c, WW.Trio.simulate s h offer ask amt = .ok c ∧
+      s'.ub (rc.getD u) ask = s.ub (rc.getD u) ask + c.ret ∧
+      s'.pend ask = s.pend ask + c.protFee ∧ s'.allTime ask = s.allTime ask + c.protFee ∧
+      s'.burned ask = s.burned ask + c.burnFee ∧ s'.sup ask = s.sup ask - c.burnFee ∧
+      s'.bal offer = s.bal offer + amt ∧ s'.bal ask = s.bal ask - c.ret - c.burnFee :=
+  WW.Trio.trio_sim_eq_exec hs
+
+/-- **Vault**: the `Share { amount }` query (`shareOf`) is exactly what a withdrawal of that many
+    shares pays: the withdrawer's balance grows by it and the vault's balance drops by it
+    (model WW/Model/Vault.lean, tied to the real vault by engine `vault`, which queries `Share`
+    immediately before every withdrawal). -/
+theorem vault_share_eq_withdraw {s s' : WW.Vault.St} {who lp : Nat} (hw : who < s.ab.length)
+    (h : WW.Vault.withdraw s who lp = some s') :
+    WW.Vault.getN s'.ab who = WW.Vault.getN s.ab who + WW.Vault.shareOf s lp ∧
+    s'.bal = s.bal - WW.Vault.shareOf s lp := by
+  obtain ⟨_, rfl⟩ := WW.Vault.withdraw_ok_of_some h
+  constructor
+  · simp only [WW.Vault.withdrawRes]
+    exact WW.Vault.getN_setN_same _ _ _ hw
+  · simp only [WW.Vault.withdrawRes]
 
 end WW.C14
